@@ -239,6 +239,16 @@ def check_bytes(case):
         ybytes = (m["pos"] * 0x9E3779B97F4A7C15 % P or 1).to_bytes(32, "big")
         pk = bytearray((b"\x04" + bytes(32) + ybytes) if form == 0 else (bytes([2 + form % 2]) + bytes(32)))
         label = "forged-under-x0-key"
+    elif kind == "forge-infinity-key":
+        # the public key is an encoding of the point at infinity (SEC1's single zero octet, or nothing at all): with P = O
+        # the equation loses its u2*P term, so (r, s) = (x(aG), z/a) "verifies" for any message without a secret
+        a = k % N or 1
+        r_f = ec.mul(a, ec.G)[0] % N
+        s_f = (z % N) * pow(a, -1, N) % N
+        if r_f and s_f:
+            dersig = bytearray(der.encode(r_f, min(s_f, N - s_f) if m["pos"] % 2 else s_f))
+        pk = bytearray([b"\x00", b"\x00", b"", b"\x00" * 33, b"\x00" * 65][m["pos"] % 5])
+        label = "forged-under-infinity-key"
     elif kind == "infinity":
         # keep (r, s) and the message, swap in the key P = (-z/r)G: then u1*G + u2*P is the point at infinity
         d_inf = (-z) * pow(rs[0], -1, N) % N
@@ -396,7 +406,7 @@ def verify_cases(draw):
 
 @st.composite
 def bytes_cases(draw):
-    kind = draw(st.sampled_from(["none", "msg", "flag", "pk-byte", "pk-byte", "pk-prefix", "pk-prefix", "pk-hybrid", "pk-len", "pk-x>=p", "pk-other", "der-value", "der-value", "der-struct", "der-struct", "neg-s", "infinity", "forge-x0"]))
+    kind = draw(st.sampled_from(["none", "msg", "flag", "pk-byte", "pk-byte", "pk-prefix", "pk-prefix", "pk-hybrid", "pk-len", "pk-x>=p", "pk-other", "der-value", "der-value", "der-struct", "der-struct", "neg-s", "infinity", "forge-x0", "forge-infinity-key"]))
     m = {"kind": kind, "pos": draw(st.integers(0, 200)), "bit": draw(st.integers(0, 7))}
     if kind == "flag":
         m["to"] = draw(st.sampled_from(FLAGS + [0, 4, 0x80, 0xFF]))
@@ -459,7 +469,7 @@ def targets(tier):
         Target("verify-secp", check_verify, strategy=lambda tier: verify_cases(), budget={"quick": 640, "thorough": 10000},
                required=["mut:s->n-s", "mut:z+n", "mut:u1G+u2P=infinity", "mut:other-key", "mut:aliased-key", "nt:expect-accept", "nt:expect-reject", "mut:flip-px"]),
         Target("sigverify-bytes", check_bytes, strategy=lambda tier: bytes_cases(), budget={"quick": 800, "thorough": 10000},
-               required=["mut:der-struct", "mut:der-value", "mut:pk-hybrid", "mut:pk-prefix", "mut:pk-len-otherform", "mut:flag", "mut:msg", "mut:u1G+u2P=infinity", "mut:forged-under-x0-key", "nt:expect-accept", "nt:expect-reject", "nt:nonstandard-sighash-byte-00",
+               required=["mut:der-struct", "mut:der-value", "mut:pk-hybrid", "mut:pk-prefix", "mut:pk-len-otherform", "mut:flag", "mut:msg", "mut:u1G+u2P=infinity", "mut:forged-under-x0-key", "mut:forged-under-infinity-key", "nt:expect-accept", "nt:expect-reject", "nt:nonstandard-sighash-byte-00",
                          "nt:key-bytes-with-whitespace-or-nul-at-an-end", "mut:pk-len-ext-ws", "nt:der-length-64", "nt:der-length-63", "nt:plain-msg-ends-in-its-hash-type", "nt:then-same-bytes-in-other-mode/after-OK"]),
         Target("low-s", check_lows, strategy=lambda tier: lows_cases(), budget={"quick": 3000, "thorough": 40000},
                required=["nt:complement-short", "nt:complement-short-topbit", "nt:s-at-half", "nt:verified"]),
